@@ -6,6 +6,9 @@ import (
 	"os"
 	"sort"
 	"time"
+	simrand "verif.local/sim/simrand"
+	simrandv2 "verif.local/sim/simrandv2"
+	simtime "verif.local/sim/simtime"
 
 	"verif.local/sim/simrt"
 	"verif.local/sim/world"
@@ -134,6 +137,8 @@ type Replay struct {
 
 // Stats accumulates evidence counters inside a worker.
 type Stats struct {
+	ClockReads   int64             `json:"clock_reads"` // how often gopatch read the simulated clock
+	RandDraws    int64             `json:"rand_draws"`  // how often it drew from the package-level random generators
 	Evaluations  int               `json:"evaluations"`
 	Runs         int               `json:"runs"` // simulated executions (a case may need several)
 	Steps        uint64            `json:"steps"`
@@ -186,6 +191,8 @@ func (s *Stats) Finish() {
 	sort.Strings(s.DistinctKeys)
 	s.SitesHit = simrt.CoverageCount()
 	s.Cov = simrt.CoverageWords()
+	s.ClockReads = simtime.Reads()
+	s.RandDraws = simrand.Draws() + simrandv2.Draws()
 }
 
 // Env is what a check gets to work with.
